@@ -254,7 +254,7 @@ PROP = dict(
     extra=extra,
     # `std` off is a lattice point too: compile-time dispatch, on a stock x86_64 target the plain SSE2 machine
     # (a seeded change in a pre-SSSE3 code path changed BLAKE-512 only in that build and was missed without it)
-    cfgs_quick=["std-release", "nosimd-release", "nounroll-release", "nostd-sse2-release"],
+    cfgs_quick=["std-release", "nosimd-release", "nounroll-release", "nostd-sse2-release", "nosimd-debug", "nounroll-debug"],
     cfgs_thorough=["std-release", "nosimd-release", "nounroll-release", "std-debug", "nosimd-debug", "nounroll-debug"] + list(cclib.NOSTD_CFGS),
     strength="partial",
     partial_note="compilation of each lattice point is observed with cargo, not proved; selection-correctness (exactly one "
